@@ -357,18 +357,115 @@ def real_decoders():
     return {k: getattr(dd, k) for k in STUBS}
 
 
+def gen_bitmap_member(rng, depth, pal_id):
+    """a Director-4 bitmap CASt record + BITD chunk (harness/bitd_members.py recipe) with a chosen palette number"""
+    import bitd_members as bm, bitd_spec as BS, c15
+    while True:
+        W = rng.randrange(1, 13); H = rng.randrange(1, 6)
+        ox = rng.randrange(0, W); oy = rng.randrange(0, H)
+        img = bm._rand_img(rng, depth, W, H, ox, oy)
+        rows = BS.raw_rows(img, rng.choice([0, 0xFF]))
+        raw = depth in (1, 8) and rng.random() < 0.3
+        if raw:
+            data = b"".join(rows)
+        else:
+            enc = []
+            for r in rows:
+                n = len(r)
+                cuts = sorted(set(rng.randrange(1, n) for _ in range(rng.randrange(0, 3)))) if n > 1 else []
+                enc.append(BS.seg_to_ops(r, cuts, prefer_run=rng.random() < 0.8))
+            data = BS.serialise_packed(enc)
+            if len(data) == BS.raw_len(img):
+                continue
+        break
+    fields = [rng.randrange(256), bm.DEPTH_CODE[depth], rng.randrange(256), oy, ox, H, W, 0, 0, H, W, rng.randrange(0, H + 1), rng.randrange(0, W + 1)]
+    sp = dict(kind="bitmap", fields=fields, tail=[depth, pal_id], pad="", info=dict(sk=0, bd1=0, bd2=0, si=0, unknowns=[], extras=[]))
+    return c15.enc_d4(sp), data
+
+
+_GEN_POOL = None
+
+
+def generated_pool():
+    """chunks produced by the other families' generators: STXT texts, snd resources"""
+    global _GEN_POOL
+    if _GEN_POOL is None:
+        import random
+        pool = dict(stxt=[], snd=[])
+        try:
+            import c16
+            for c in c16.cases(random.Random(11), "quick"):
+                for l in c.lines:
+                    t = l.split()
+                    if t[:2] == ["text", "stxt"] and len(t) > 4 and t[2] == "mac_roman" and len(pool["stxt"]) < 60:
+                        try:
+                            pool["stxt"].append(bytes.fromhex(t[4]))
+                        except ValueError:
+                            pass
+        except Exception:
+            pass
+        try:
+            import c07
+            r = random.Random(12)
+            for _ in range(40):
+                pool["snd"].append(c07.encode(c07.rand_spec(r)))
+        except Exception:
+            pass
+        _GEN_POOL = pool
+    return _GEN_POOL
+
+
+def gen_generated_members(rng, n):
+    """members of every kind built by the other families' encoders (c15 records, c16 texts, c07 sounds, bitd_members bitmaps of
+    depth 1/8/16/32 with system palettes, and palette members referenced by LATER 8-bit bitmaps through their slot number)"""
+    import c15
+    gp = generated_pool()
+    members, pal_slots = [], []
+    for i in range(n):
+        r = rng.random()
+        if r < 0.12:
+            members.append(None); continue
+        kind = rng.choice(["bitmap", "bitmap", "bitmap", "field", "sound", "palette", "button", "shape", "script", "richText", "transition"])
+        try:
+            if kind == "bitmap":
+                depth = rng.choice([1, 8, 8, 16, 32])
+                pal = rng.choice([0, -1, -2, -101, -100]) if not (depth == 8 and pal_slots and rng.random() < 0.6) else rng.choice(pal_slots) + 1
+                rec, bitd = gen_bitmap_member(rng, depth, pal if depth == 8 else rng.choice([0, -1, 5]))
+                links = [("BITD", bitd)] + ([("THUM", rb(rng))] if rng.random() < 0.2 else [])
+                members.append(dict(cast=rec, links=links)); continue
+            sp = c15.rand_member(rng, kind if kind in c15.KINDS else None)
+            rec = c15.enc_d4(sp) if rng.random() < 0.5 else c15.enc_d5(sp)
+            links = []
+            k = sp["kind"]
+            if k in ("field", "richText", "button") and gp["stxt"] and rng.random() < 0.8:
+                links = [("STXT", rng.choice(gp["stxt"]))]
+            elif k == "sound" and gp["snd"] and rng.random() < 0.8:
+                links = [("snd ", rng.choice(gp["snd"]))]
+            elif k == "palette":
+                links = [("CLUT", bytes(rng.randrange(256) for _ in range(6 * 256)))]; pal_slots.append(i)
+            elif k == "bitmap":
+                links = []
+            members.append(dict(cast=rec, links=links))
+        except Exception:
+            members.append(None)
+    return members
+
+
 def gen_real_movie(rng):
     pool = harvest()
     order = rng.choice("<>")
     prefix = rb(rng, 1, 40) if rng.random() < 0.3 else b""
     n = rng.choice([1, 2, 3, rng.randrange(1, 9)])
     members = []
-    for _ in range(n):
-        if rng.random() < 0.15:
-            members.append(None)
-        else:
-            b = rng.choice(pool["members"])
-            members.append(dict(cast=b["cast"], links=list(b["links"])))
+    if rng.random() < 0.6:
+        members = gen_generated_members(rng, n)
+    else:
+        for _ in range(n):
+            if rng.random() < 0.15:
+                members.append(None)
+            else:
+                b = rng.choice(pool["members"])
+                members.append(dict(cast=b["cast"], links=list(b["links"])))
     m = dict(order=order, prefix=prefix, members=members, vwcf=rng.choice(pool["vwcf"]), key_noise=rng.randrange(0, 3), scripts=None, layout_seed=rng.randrange(1 << 30),
              fmap=rng.choice(pool["fmap"]) if pool["fmap"] and rng.random() < 0.7 else None,
              vwlb=rng.choice(pool["vwlb"]) if pool["vwlb"] and rng.random() < 0.5 else None,
